@@ -19,8 +19,12 @@ RULE = ('exhaustive (n,N) pairs up to the tier bound (pad n->N and crop N->n, ev
         'data, transposed and strided inputs on a smaller sweep; every mixed grow/shrink request up to 6x6 (must raise); '
         'grids (tuple and scalar shape, grid=True/False, dx>0, dx<0, diameter=), frequency axes (shift=True/False, keyword and '
         'positional), RichData.x / .y / slices() and centroids (spatial and pixels) for every length / shape up to the bound; '
-        'Wavefront.pad2d / crop with Q, out_shape, value, mode, inplace True/False; a case is non-trivial unless n == N or '
-        'n == 1; distinct = distinct (item, input) tuples')
+        'Wavefront.pad2d / crop with Q, out_shape, value, mode, inplace True/False; index-valued 1-D data through pad2d / '
+        'crop_center along either axis (index maps), np.fft shifts, the Slices object against the model; autocrop for every '
+        'centroid position x width that fits; estimate_size on non-square Gaussians; RichData.r / t / support / exact_x / exact_y / '
+        'exact_xy fresh and on copies; fourier_resample with scalar / tuple / list zoom; pad2d on 1-D and 3-D arrays; pad-pad and '
+        'crop-crop compositions for every parity triple; centroids of random extended data (ctx.rng) before / after zero padding; '
+        'a case is non-trivial unless n == N or n == 1; distinct = distinct (item, input) tuples')
 ASSUMPTIONS = ['scipy.ndimage.center_of_mass returns the first moment / total (trusted; compared on every point source)',
                'np.pad / slicing / np.meshgrid / np.roll semantics (trusted; compared on every case)',
                'np.argmin(abs(v)) returns an index of a minimal |v[k]| (specification `IsArgminAbs` of the slices theorem)']
@@ -85,6 +89,10 @@ def _pure(fn, *args, **kw):
 def _shape_arg(out, form):
     if form == 'int':
         return int(out[0])
+    if form == 'npint':                       # a tuple of NumPy integers (what arithmetic on array shapes / np.max hands out)
+        return tuple(np.int64(v) for v in out)
+    if form == 'ndarray':
+        return np.asarray(out)
     return list(out) if form == 'list' else tuple(out)
 
 
@@ -458,20 +466,32 @@ def _p_wf_crop(c):
 def _p_focus(c):
     pr = _impl()[3]
     m, n = c['shape']
-    f = pr.focus(np.ones((m, n), dtype=complex), 1)
+    Q = float(Fraction(c.get('Q', '1')))
+    q = Fraction(c.get('Q', '1'))
+    M, N = (-((-m * q.numerator) // q.denominator), -((-n * q.numerator) // q.denominator))
+    f = pr.focus(np.ones((m, n), dtype=complex), Q)
+    if f.shape != (M, N):
+        return f'focus with Q = {Q} returned shape {f.shape}, ceil(shape * Q) = {(M, N)}'
     pk = tuple(int(v) for v in np.unravel_index(np.argmax(abs(f)), f.shape))
-    if pk != (m // 2, n // 2):
-        return f'flat field focuses onto {pk}, the origin sample is {(m // 2, n // 2)}'
-    rest = abs(f).copy()
-    rest[pk] = 0
-    if rest.max() > 1e-9 * abs(f[pk]):        # scale-free: whatever the normalisation convention
-        return 'flat field does not focus onto a single sample'
+    if q == 1:
+        if pk != (M // 2, N // 2):
+            return f'flat field focuses onto {pk}, the origin sample is {(M // 2, N // 2)}'
+        rest = abs(f).copy()
+        rest[pk] = 0
+        if rest.max() > 1e-9 * abs(f[pk]):        # scale-free: whatever the normalisation convention
+            return 'flat field does not focus onto a single sample'
+    else:
+        # padded flat field: the zero-frequency bin holds the (unique, when the axis has more than one input sample) maximum
+        a_ = abs(f)
+        o = (M // 2, N // 2)
+        if a_[o] < a_.max() * (1 - 1e-12) or (m > 1 and n > 1 and np.count_nonzero(a_ >= a_[o] * (1 - 1e-9)) != 1):
+            return f'padded flat field focuses onto {pk}, the origin sample is {o}'
     d = np.zeros((m, n), dtype=complex)
     d[m // 2, n // 2] = 1
-    for nm, g in (('focus', pr.focus(d, 1)), ('unfocus', pr.unfocus(d, 1))):
+    for nm, g in (('focus', pr.focus(d, Q)), ('unfocus', pr.unfocus(d, Q))):
         g00 = g[0, 0]
-        if abs(g00) == 0 or abs(g - g00).max() > 1e-9 * abs(g00) or abs(g00.imag) > 1e-9 * abs(g00):
-            return f'{nm} of a point source on the origin sample is not a flat, real field'
+        if g.shape != (M, N) or abs(g00) == 0 or abs(g - g00).max() > 1e-9 * abs(g00) or abs(g00.imag) > 1e-9 * abs(g00):
+            return f'{nm} (Q = {Q}) of a point source on the origin sample is not a flat, real field'
     return None
 
 
@@ -500,6 +520,209 @@ def _p_fresh(c):
     ok = all(ft.fftrange(n, dtype=dt)[n // 2] == 0 for dt in (None, config.precision)) \
         and x2[0, n // 2] == 0 and y2[n // 2, 0] == 0 and u2[n // 2] == 0 and u02[0] == 0 and xv2[n // 2] == 0 and yv2[n // 2] == 0
     return None if ok else 'a grid lost its zero at n//2 after an earlier result was modified in place / after a shifted transform'
+
+
+@pred('autocrop')
+def _p_autocrop(c, want_out=False):
+    """psf.autocrop(data, px): a px-wide window whose origin sample px//2 is the centroid sample (window inside the array)"""
+    psf = _impl()[2]
+    m, n = c['shape']
+    p, q = c['pos']
+    px = c['px']
+    d = np.zeros((m, n))
+    d[p, q] = 2.0
+    if c.get('blob'):                      # symmetric 3x3 blob: same centroid, not a single sample
+        d[p - 1:p + 2, q - 1:q + 2] += 0.5
+    out, problem = _pure(psf.autocrop, d, px)
+    if want_out:
+        return out
+    if problem:
+        return problem
+    if out.shape != (px, px):
+        return f'window of shape {out.shape} for px = {px} (full width requested)'
+    if out[px // 2, px // 2] != d[p, q]:
+        return f'centroid sample {(p, q)} is not on the origin sample {(px // 2, px // 2)} of the window'
+    lo0, lo1 = p - px // 2, q - px // 2
+    if not np.array_equal(out, d[lo0:lo0 + px, lo1:lo1 + px]):
+        return 'window is not the block around the centroid sample'
+    return None
+
+
+@pred('estimate_size')
+def _p_estsize(c):
+    """fwhm / 1/e / 1/e^2 with dx only measure on the same coordinates as make_xy_grid(shape, dx, grid=False)"""
+    psf, co = _impl()[2], _impl()[1]
+    m, n = c['shape']
+    dx = c['dx']
+    x, y = co.make_xy_grid((m, n), dx=dx)
+    xv, yv = co.make_xy_grid((m, n), dx=dx, grid=False)
+    s = 0.18 * min(m, n) * dx
+    f = np.exp(-(x ** 2 + y ** 2) / (2 * s * s))
+    fn = {'fwhm': psf.fwhm, '1/e': psf.one_over_e, '1/e^2': psf.one_over_e_sq}[c['metric']]
+    a = fn(f, dx, criteria=c.get('criteria', 'last')) if c.get('call') == 'positional' else fn(f, dx=dx, criteria=c.get('criteria', 'last'))
+    b = fn(f, x=xv, y=yv, criteria=c.get('criteria', 'last'))
+    if not (abs(a - b) <= 1e-9 * max(abs(b), dx)):
+        return f'{c["metric"]} with dx only = {a}, on the make_xy_grid vectors = {b}'
+    return None
+
+
+@pred('richdata_derived')
+def _p_rich_derived(c):
+    """quantities RichData derives from x / y: r (zero exactly on the origin sample), support_x / _y, exact_x / exact_y / exact_xy
+    (values read AT coordinates: k dx from zero is k samples from the origin sample), also on a copy()"""
+    m, n = c['shape']
+    a, r = _rich(c)
+    dx = c['dx']
+    if c.get('history') == 'copy_after_read':
+        _ = r.x
+        r = r.copy()
+    elif c.get('history') == 'copy_before_read':
+        r = r.copy()
+    what = c['what']
+    if what == 'r':
+        rr = np.asarray(r.r)
+        if rr.shape != (m, n) or rr[m // 2, n // 2] != 0 or np.count_nonzero(rr == 0) != 1:
+            return 'r is not zero exactly on the origin sample'
+        t = np.asarray(r.t)
+        if dx > 0 and n // 2 + 1 < n and abs(t[m // 2, n // 2 + 1]) > 1e-12:
+            return 'azimuth of the sample next to the origin along +column is not that of the x axis'
+    elif what == 'support':
+        if abs(r.support_x - n * dx) > 1e-12 * abs(n * dx) or abs(r.support_y - m * dx) > 1e-12 * abs(m * dx):
+            return f'support_x, support_y = {r.support_x, r.support_y} for shape {(m, n)}, dx = {dx}'
+    elif what == 'exact':
+        for k in range(-(n // 2), n - n // 2):
+            if r.exact_x(k * dx) != a[m // 2, n // 2 + k]:
+                return f'exact_x({k} dx) = {r.exact_x(k * dx)}, the sample {k} columns from the origin sample holds {a[m // 2, n // 2 + k]}'
+        for k in range(-(m // 2), m - m // 2):
+            if r.exact_y(k * dx) != a[m // 2 + k, n // 2]:
+                return f'exact_y({k} dx) = {r.exact_y(k * dx)}, the sample {k} rows from the origin sample holds {a[m // 2 + k, n // 2]}'
+        ky, kx = c.get('at', [0, 0])
+        got = float(np.asarray(r.exact_xy(kx * dx, ky * dx)).ravel()[0])
+        if abs(got - a[m // 2 + ky, n // 2 + kx]) > 1e-9 * a[m // 2 + ky, n // 2 + kx]:
+            return f'exact_xy({kx} dx, {ky} dx) = {got}, the sample holds {a[m // 2 + ky, n // 2 + kx]}'
+    else:
+        raise KeyError(what)
+    return None
+
+
+def _zoom_arg(z, form):
+    if form == 'scalar':
+        return z[0]
+    return tuple(z) if form == 'tuple' else list(z)
+
+
+@pred('fourier_resample')
+def _p_resample(c, want_out=False):
+    """fourier_resample(f, zoom): axis k has int(shape[k] * zoom[k]) samples and a function centred on the origin sample stays
+    centred on the origin sample of the output"""
+    ft, co = _impl()[0], _impl()[1]
+    m, n = c['shape']
+    z = [float(Fraction(v)) for v in c['zoom']]
+    x, y = co.make_xy_grid((m, n), dx=1.0)
+    f = np.exp(-(x ** 2 + y ** 2) / (2 * (0.12 * min(m, n)) ** 2))
+    g, problem = _pure(ft.fourier_resample, f, _zoom_arg(z, c.get('form', 'tuple')))
+    if want_out:
+        return g
+    if problem:
+        return problem
+    M, N = int(m * z[0]), int(n * z[1])
+    if g.shape != (M, N):
+        return f'resampled shape {g.shape}, int(shape * zoom) = {(M, N)}'
+    pk = tuple(int(v) for v in np.unravel_index(np.argmax(g), g.shape))
+    if pk != (M // 2, N // 2):
+        return f'a function centred on the origin sample is resampled onto {pk}, the origin sample is {(M // 2, N // 2)}'
+    return None
+
+
+@pred('pad_nd')
+def _p_pad_nd(c):
+    """pad2d on arrays that are not 2-D (an integer out_shape / Q means every axis of the array): every axis follows the convention"""
+    ft = _impl()[0]
+    shp = tuple(c['in'])
+    a = np.arange(1, int(np.prod(shp)) + 1, dtype=float).reshape(shp)
+    kw = {'mode': c.get('mode', 'constant')}
+    if c.get('out') is not None:
+        kw['out_shape'] = int(c['out']) if c.get('outform', 'int') == 'int' else tuple(c['out'])
+        out_shape = (int(c['out']),) * a.ndim if c.get('outform', 'int') == 'int' else tuple(c['out'])
+    else:
+        kw['Q'] = float(Fraction(c['Q']))
+        q = Fraction(c['Q'])
+        out_shape = tuple(-((-n * q.numerator) // q.denominator) for n in shp)
+    out, problem = _pure(ft.pad2d, a, **kw)
+    if problem:
+        return problem
+    if out.shape != out_shape:
+        return f'padded shape {out.shape}, expected {out_shape}'
+    if out[tuple(N // 2 for N in out_shape)] != a[tuple(n // 2 for n in shp)]:
+        return f'origin sample of the {a.ndim}-D input is not on the origin sample of the padded array'
+    blk = tuple(slice(N // 2 - n // 2, N // 2 - n // 2 + n) for n, N in zip(shp, out_shape))
+    if not np.array_equal(out[blk], a):
+        return 'the input block is not reproduced around the origin of the padded array'
+    return None
+
+
+@pred('compose')
+def _p_compose(c):
+    """two pads in a row place the data where the single pad does; two crops keep the block the single crop keeps"""
+    ft = _impl()[0]
+    a = _arr(c['in'])
+    if c['op'] == 'pad':
+        kw = {'mode': c.get('mode', 'constant')}
+        if c.get('value') is not None:
+            kw['value'] = _val(c['value'])
+        two = ft.pad2d(ft.pad2d(a, out_shape=tuple(c['mid']), **kw), out_shape=tuple(c['out']), **kw)
+        one = ft.pad2d(a, out_shape=tuple(c['out']), **kw)
+    else:
+        two = ft.crop_center(ft.crop_center(a, tuple(c['mid'])), tuple(c['out']))
+        one = ft.crop_center(a, tuple(c['out']))
+    return None if _same(np.asarray(two), np.asarray(one)) else f'{c["op"]} {c["in"]} -> {c["mid"]} -> {c["out"]} differs from {c["op"]} {c["in"]} -> {c["out"]}'
+
+
+@pred('centroid_pad')
+def _p_centroid_pad(c):
+    """zero padding does not move the spatial centroid of extended data (any parity combination)"""
+    ft, psf = _impl()[0], _impl()[2]
+    m, n = c['in']
+    d = np.random.default_rng(c['seed']).random((m, n)) + 0.25
+    if c.get('blob'):
+        d = np.zeros((m, n))
+        p, q = c['blob']
+        d[p - 1:p + 2, q - 1:q + 2] = [[1, 2, 1], [2, 5, 2], [1, 2, 1]]
+    dx = c['dx']
+    c0 = psf.centroid(d, dx)
+    c1 = psf.centroid(ft.pad2d(d, out_shape=tuple(c['out'])), dx)
+    if any(abs(u - v) > 1e-9 * max(abs(dx), abs(u)) for u, v in zip(c0, c1)):
+        return f'centroid {tuple(float(v) for v in c0)} became {tuple(float(v) for v in c1)} after zero padding to {c["out"]}'
+    if c.get('blob'):
+        p, q = c['blob']
+        ey, ex = (p - m // 2) * dx, (q - n // 2) * dx
+        if abs(c0[0] - ey) > 1e-9 * max(1, abs(ey)) or abs(c0[1] - ex) > 1e-9 * max(1, abs(ex)):
+            return f'symmetric source centred {(p - m // 2, q - n // 2)} samples from the origin reported at {(c0[0] / dx, c0[1] / dx)} samples'
+    return None
+
+
+@pred('slices_az')
+def _p_slices_az(c):
+    """azimuthal statistics of Slices resample the data about the coordinate zero: for the linear map z = x + 2 y (exact under
+    linear interpolation) the average / maximum over the azimuth at radius rho is rho * mean / max of (cos + 2 sin), for every
+    radius inside the array"""
+    co = _impl()[1]
+    m, n = c['shape']
+    dx = c['dx']
+    x, y = co.make_xy_grid((m, n), dx=dx)
+    r = _impl()[4].RichData(1 * x + 2 * y, dx, 1.0)
+    s = r.slices()
+    rho, avg = s.azavg
+    _, mx = s.azmax
+    phi = np.linspace(0, 2 * np.pi, m)
+    xv, yv = x[0], y[:, 0]
+    rin = min(abs(xv.min()), abs(xv.max()), abs(yv.min()), abs(yv.max()))
+    k = rho <= rin * (1 - 1e-12)
+    w = np.cos(phi) + 2 * np.sin(phi)
+    tol = 1e-9 * max(rin, abs(dx))
+    if len(rho) != n or np.abs(avg - rho * w.mean())[k].max() > tol or np.abs(mx - rho * w.max())[k].max() > tol:
+        return 'azimuthal average / maximum of z = x + 2 y is not rho * mean / max (cos + 2 sin) about the origin sample'
+    return None
 
 
 def _symmetric(M, o):
@@ -694,6 +917,7 @@ def correspondence(ctx):
             for (p, q) in itertools.product(range(m), range(n)):
                 cen_pts.append((m, n, p, q, dx))
                 lines.append(f'centroid {m} {n} {p} {q} {rat(dx)}')
+    lines += _session3_lines(ctx, pairs, ns, shapes, rat)
     lines = list(dict.fromkeys(lines))
     M = dict(zip(lines, C.lean_driver('C04', lines)))
 
@@ -748,6 +972,8 @@ def correspondence(ctx):
             {'outform': 'tuple', 'mode': 'wrap', 'value': None, 'dtype': 'int64'},
             {'outform': 'tuple', 'mode': 'constant', 'value': '1.5', 'layout': 'T'},
             {'outform': 'tuple', 'mode': 'edge', 'value': None, 'layout': 'strided'},
+            {'outform': 'npint', 'mode': 'constant', 'value': '0'},
+            {'outform': 'ndarray', 'mode': 'edge', 'value': None},
         ] + [{'outform': 'tuple', 'mode': mo, 'value': None} for mo in MODES_EXTRA]
         for v in (variants if ctx.thorough else variants[k % 2::2] + variants[:2]):
             for axis in (0, 1):
@@ -756,7 +982,8 @@ def correspondence(ctx):
                 case = {'in': list(shp), 'out': [N, N], **v}
                 _pad_case(ctx, case, w, nontrivial=(n != N and n > 1), tag=f'alt/{v["outform"]}/{v.get("dtype", "f8")}/{v["mode"]}')
         for v in ({'outform': 'int'}, {'outform': 'list'}, {'outform': 'tuple', 'dtype': 'int64'}, {'outform': 'tuple', 'layout': 'T'},
-                  {'outform': 'tuple', 'layout': 'strided'}, {'outform': 'int', 'dtype': 'complex128'}):
+                  {'outform': 'tuple', 'layout': 'strided'}, {'outform': 'int', 'dtype': 'complex128'}, {'outform': 'npint'},
+                  {'outform': 'ndarray'}):
             N2 = [N, N + 1, N + 3][k % 3]
             l2 = N2 // 2 - n // 2
             for axis in (0, 1):
@@ -853,6 +1080,8 @@ def correspondence(ctx):
     # ---------------- FFT-route propagation keeps the origin on n//2 (frequency axis of focus/unfocus)
     for (m, n) in itertools.product(range(1, ctx.scale(12, 24)), repeat=2):
         _run_pred(ctx, 'focus_origin', {'shape': [m, n]}, nontrivial=m > 1 and n > 1, tag=f'par{m % 2}{n % 2}')
+        qq = ('2', '3/2', '5/4')[(m + n) % 3]        # padded route: focus / unfocus pad by Q first
+        _run_pred(ctx, 'focus_origin', {'shape': [m, n], 'Q': qq}, nontrivial=True, tag=f'Q{qq}/par{m % 2}{n % 2}')
 
     # ---------------- history: grids stay correct after callers edited earlier results in place (no shared arrays)
     for n in range(1, ctx.scale(40, 130)):
@@ -884,6 +1113,10 @@ def correspondence(ctx):
             out = [s, s] if v.get('outform') == 'int' else [max(1, m - n % 3), max(1, n - m % 4)]
             _run_pred(ctx, 'wavefront_crop', {'in': [m, n], 'out': out, **v}, nontrivial=m > 1 and n > 1, tag=f'inplace{v.get("inplace")}')
 
+
+    # ---------------- session 3: index maps, shifts, slices, vectors of the hand model executed against the real code
+    _session3(ctx, M, pairs, ns, shapes, rat)
+
     # ---------------- array centres computed elsewhere with another formula still land on n//2 (odd and even sizes)
     sites = origin_inventory(C.REPO)
     new = sorted({s_[:3] for s_ in sites} - set(REVIEWED_SITES))
@@ -896,6 +1129,187 @@ def correspondence(ctx):
     for (m, n) in itertools.product(range(1, ctx.scale(10, 18)), repeat=2):
         for what in ('psd', 'synth'):
             _run_pred(ctx, 'foreign_origin', {'what': what, 'shape': [m, n]}, nontrivial=m > 1 and n > 1, tag=f'{what}/par{m % 2}{n % 2}')
+
+
+def _session3_lines(ctx, pairs, ns, shapes, rat):
+    P = ctx.scale(24, 48)
+    lines = []
+    for (n, N) in pairs:
+        if N <= P:
+            lines += [f'padsrc {n} {N}', f'cropsrc {N} {n}']
+    for n in ns:
+        if n <= 130:
+            lines += [f'shifts {n}', f'fftfreq {n}']
+    for (m, n) in shapes:
+        dx = DXS[(m + n) % len(DXS)]
+        lines += [f'slices {m} {n} {rat(dx)}', f'support {m} {n} {rat(dx)}', f'dxdiam 3/1 {m} {n}']
+        lines += [f'vec {m} {n} {k} {rat(dx)}' for k in {0, min(m, n) // 2, min(m, n) - 1}]
+    for c in range(0, ctx.scale(14, 22)):
+        lines += [f'autocrop {c} {px}' for px in range(1, 9)]
+    for ln in range(1, ctx.scale(20, 40)):
+        lines += [f'resample {ln} {z}' for z in ('2/1', '3/2', '1/2', '5/4', '3/4')]
+    return lines
+
+
+def _session3(ctx, M, pairs, ns, shapes, rat):
+    ft, co, psf, pr, rd = _impl()
+    P = ctx.scale(24, 48)
+    # ---- 1-D index maps of pad / crop (Model.padSrc / cropSrc): where does every output sample come from?
+    for (n, N) in pairs:
+        if N > P:
+            continue
+        src = list(map(int, M[f'padsrc {n} {N}'].split()))
+        for axis in (0, 1):
+            a = np.arange(1, n + 1, dtype=float).reshape((n, 1) if axis == 0 else (1, n))
+            case = {'in': list(a.shape), 'out': [N, 1] if axis == 0 else [1, N], 'axis': axis}
+            ctx.case('pad_index_map', case, nontrivial=n != N, tag=f'par{n % 2}{N % 2}')
+            try:
+                out = ft.pad2d(a, out_shape=tuple(case['out'])).ravel()
+                got = [int(v) - 1 for v in out]
+            except Exception as ex:
+                got = f'raised {type(ex).__name__}: {ex}'
+            if got != src:
+                ctx.disagree('pad_index_map', case, got if isinstance(got, str) else got[:8], src[:8])
+        csrc = list(map(int, M[f'cropsrc {N} {n}'].split()))
+        for axis in (0, 1):
+            a = np.arange(N, dtype=float).reshape((N, 1) if axis == 0 else (1, N))
+            case = {'in': list(a.shape), 'out': [n, 1] if axis == 0 else [1, n], 'axis': axis}
+            ctx.case('crop_index_map', case, nontrivial=n != N, tag=f'par{N % 2}{n % 2}')
+            try:
+                got = [int(v) for v in ft.crop_center(a, tuple(case['out'])).ravel()]
+            except Exception as ex:
+                got = f'raised {type(ex).__name__}: {ex}'
+            if got != csrc:
+                ctx.disagree('crop_index_map', case, got if isinstance(got, str) else got[:8], csrc[:8])
+    # ---- NumPy's fftshift / ifftshift / fftfreq against Model.rollSrc / npFftshiftBy / npIfftshiftBy / fftfreqOf
+    for n in ns:
+        if n > 130:
+            continue
+        sh = list(map(int, M[f'shifts {n}'].split()))
+        ctx.case('np_shifts', {'n': n}, nontrivial=n > 1, tag=f'par{n % 2}')
+        got = [int(v) for v in np.fft.fftshift(np.arange(n))] + [int(v) for v in np.fft.ifftshift(np.arange(n))]
+        if got != sh:
+            ctx.disagree('np_shifts', {'n': n}, got[:8], sh[:8])
+        fq = list(map(int, M[f'fftfreq {n}'].split()))
+        gotf = [int(round(v)) for v in np.fft.fftfreq(n) * n]
+        if gotf != fq:
+            ctx.disagree('np_fftfreq', {'n': n}, gotf[:8], fq[:8])
+    # ---- Slices: centre indices and the four cuts of the model (argmin over exact rationals) against the real object
+    for (m, n) in shapes:
+        dx = DXS[(m + n) % len(DXS)]
+        parts = [p_.split() for p_ in M[f'slices {m} {n} {rat(dx)}'].split('|')]
+        cy, cx = map(int, parts[0])
+        want = [list(map(int, p_)) for p_ in parts[1:5]]
+        zero = [float(Fraction(v)) for v in parts[5]]
+        case = {'shape': [m, n], 'dx': dx}
+        ctx.case('slices_model', case, nontrivial=m > 1 and n > 1, tag=f'par{m % 2}{n % 2}')
+        try:
+            a = _marked((m, n))
+            r = rd.RichData(a, dx, 1.0)
+            s2, s1 = r.slices(twosided=True), r.slices(twosided=False)
+            got = [[int(v) for v in s2.x[1]], [int(v) for v in s2.y[1]], [int(v) for v in s1.x[1]], [int(v) for v in s1.y[1]]]
+            gc = (int(s2.center_y), int(s2.center_x))
+            gz = [float(s1.x[0][0]), float(s1.y[0][0])]
+        except Exception as ex:
+            ctx.disagree('slices_model', case, f'raised {type(ex).__name__}: {ex}', [cy, cx])
+            continue
+        if gc != (cy, cx) or got != want or gz != zero:
+            ctx.disagree('slices_model', case, [gc, got[2][:3], gz], [(cy, cx), want[2][:3], zero])
+        sx, sy = (float(Fraction(v)) for v in M[f'support {m} {n} {rat(dx)}'].split())
+        ctx.case('support', case, nontrivial=m != n)
+        if abs(r.support_x - sx) > 1e-12 * abs(sx) or abs(r.support_y - sy) > 1e-12 * abs(sy):
+            ctx.disagree('support', case, [r.support_x, r.support_y], [sx, sy])
+        md = float(Fraction(M[f'dxdiam 3/1 {m} {n}']))
+        xv, yv = co.make_xy_grid((m, n), diameter=3.0, grid=False)
+        ctx.case('diameter_dx', {'shape': [m, n]}, nontrivial=m != n)
+        obs = [float(xv[k + 1] - xv[k]) for k in range(min(1, n - 1))] + [float(yv[k + 1] - yv[k]) for k in range(min(1, m - 1))]
+        if any(abs(o - md) > 1e-12 * md for o in obs):
+            ctx.disagree('diameter_dx', {'shape': [m, n]}, obs, md)
+        xv, yv = co.make_xy_grid((m, n), dx=dx, grid=False)
+        for k in {0, min(m, n) // 2, min(m, n) - 1}:
+            vx, vy = (float(Fraction(v)) for v in M[f'vec {m} {n} {k} {rat(dx)}'].split())
+            ctx.case('vec_sample', {'shape': [m, n], 'dx': dx, 'k': k}, nontrivial=m != n)
+            tol = 4 * np.finfo(xv.dtype).eps
+            if abs(float(xv[k]) - vx) > tol * abs(vx) or abs(float(yv[k]) - vy) > tol * abs(vy):
+                ctx.disagree('vec_sample', {'shape': [m, n], 'dx': dx, 'k': k}, [float(xv[k]), float(yv[k])], [vx, vy])
+        if m >= 3 and n >= 3 and dx > 0:
+            _run_pred(ctx, 'slices_az', {'shape': [m, n], 'dx': dx}, nontrivial=True, tag=f'par{m % 2}{n % 2}')
+        for what in ('r', 'support', 'exact'):
+            for hist in ('fresh', 'copy_after_read', 'copy_before_read'):
+                if what == 'exact' and (m < 2 or n < 2):
+                    continue
+                _run_pred(ctx, 'richdata_derived', {'shape': [m, n], 'dx': dx, 'what': what, 'history': hist,
+                                                    'at': [(m - 1) - m // 2, -(n // 2)]}, nontrivial=m > 1 and n > 1, tag=f'{what}/{hist}')
+    # ---- families of session 3: arrays that are not 2-D, compositions, centroid under padding (extended data)
+    L = ctx.scale(9, 14)
+    for n in range(1, L + 1):
+        for N in range(n, L + 3):
+            _run_pred(ctx, 'pad_nd', {'in': [n], 'out': N, 'mode': ('constant', 'edge')[(n + N) % 2]}, nontrivial=n != N and n > 1, tag='1d/int')
+            _run_pred(ctx, 'pad_nd', {'in': [n], 'out': [N], 'outform': 'tuple'}, nontrivial=n != N and n > 1, tag='1d/tuple')
+        for q in ('2', '3/2', '9/8'):
+            _run_pred(ctx, 'pad_nd', {'in': [n], 'Q': q}, nontrivial=n > 1, tag='1d/Q')
+    for shp in itertools.product(range(1, ctx.scale(5, 7)), repeat=3):
+        N = max(shp) + (sum(shp) % 3)
+        _run_pred(ctx, 'pad_nd', {'in': list(shp), 'out': N, 'mode': ('constant', 'edge')[sum(shp) % 2]}, nontrivial=len(set(shp)) > 1, tag='3d/int')
+        _run_pred(ctx, 'pad_nd', {'in': list(shp), 'out': [shp[0] + 2, shp[1] + 3, shp[2] + (shp[0] % 2)], 'outform': 'tuple'},
+                  nontrivial=True, tag='3d/tuple')
+        if sum(shp) % 4 == 0:
+            _run_pred(ctx, 'pad_nd', {'in': list(shp), 'Q': '3/2'}, nontrivial=True, tag='3d/Q')
+    K = ctx.scale(9, 13)
+    for (n, N, P_) in itertools.product(range(1, K + 1), repeat=3):
+        if not (n <= N <= P_):
+            continue
+        t = n + N + P_
+        mode, val = [('constant', '0'), ('constant', '1.5'), ('edge', None)][t % 3]
+        _run_pred(ctx, 'compose', {'op': 'pad', 'in': [n, (n % 3) + 1], 'mid': [N, (n % 3) + 1 + t % 2], 'out': [P_, (n % 3) + 4],
+                                   'mode': mode, 'value': val}, nontrivial=n < N < P_, tag=f'pad/{mode}/par{n % 2}{N % 2}{P_ % 2}')
+        _run_pred(ctx, 'compose', {'op': 'crop', 'in': [P_, (n % 3) + 4], 'mid': [N, (n % 3) + 1 + t % 2], 'out': [n, (n % 3) + 1]},
+                  nontrivial=n < N < P_, tag=f'crop/par{P_ % 2}{N % 2}{n % 2}')
+    for (m, n) in itertools.product(range(3, ctx.scale(9, 13)), repeat=2):
+        for (gm, gn) in ((0, 1), (1, 0), (3, 4), (2, 2), (5, 1)):
+            case = {'in': [m, n], 'out': [m + gm, n + gn], 'dx': DXS[(m + gn) % len(DXS)], 'seed': int(ctx.rng.integers(1 << 30))}
+            if (m + n + gm) % 3 == 0:
+                case['blob'] = [1 + (m + gn) % (m - 2), 1 + (n + gm) % (n - 2)]
+            _run_pred(ctx, 'centroid_pad', case, nontrivial=True, tag=f'{"blob" if "blob" in case else "random"}/par{m % 2}{(m + gm) % 2}{n % 2}{(n + gn) % 2}')
+    # ---- autocrop: window bounds of the model against where the real window lies, every centroid position / width that fits
+    for (m, n) in ((9, 12), (12, 9), (10, 10), (11, 13)) + (((16, 17), (21, 20)) if ctx.thorough else ()):
+        for t, (p, q) in enumerate(itertools.product(range(m), range(n))):
+            for px in range(1, 9):
+                if p - px // 2 < 0 or q - px // 2 < 0 or p - px // 2 + px > m or q - px // 2 + px > n:
+                    continue                      # window would leave the array: outside the domain
+                blob = (t + px) % 3 == 0 and 1 <= p < m - 1 and 1 <= q < n - 1
+                case = {'shape': [m, n], 'pos': [p, q], 'px': px, **({'blob': True} if blob else {})}
+                ok = _run_pred(ctx, 'autocrop', case, nontrivial=px > 1, tag=f'px{px % 2}/{"blob" if blob else "point"}')
+                lo0, hi0 = map(int, M[f'autocrop {p} {px}'].split())
+                lo1, hi1 = map(int, M[f'autocrop {q} {px}'].split())
+                try:
+                    out = _p_autocrop(case, want_out=True)
+                    w = np.argwhere(out == out.max()) if out.size else []
+                    got = [out.shape[0], out.shape[1]] + ([p - int(w[0][0]), q - int(w[0][1])] if len(w) == 1 else [None, None])
+                except Exception as ex:
+                    got = f'raised {type(ex).__name__}: {ex}'
+                if got != [hi0 - lo0, hi1 - lo1, lo0, lo1]:
+                    ctx.disagree('autocrop', case, got, [hi0 - lo0, hi1 - lo1, lo0, lo1])
+    # ---- estimate_size (fwhm, 1/e, 1/e^2) on its own dx-only coordinates vs the make_xy_grid vectors
+    for (m, n) in itertools.product(range(16, ctx.scale(24, 34)), repeat=2):
+        if (m + n) % 2 and not ctx.thorough and m > 20:
+            continue
+        k = (m * 3 + n) % 6
+        case = {'shape': [m, n], 'dx': abs(DXS[(m + n) % len(DXS)]), 'metric': ('fwhm', '1/e', '1/e^2')[k % 3],
+                'criteria': ('last', 'first')[(m + n) % 5 == 0], **({'call': 'positional'} if k >= 3 else {})}
+        _run_pred(ctx, 'estimate_size', case, nontrivial=True, tag=f'{case["metric"]}/par{m % 2}{n % 2}')
+    # ---- fourier_resample: output lengths against the model, origin stays on the origin sample
+    zs = [(('2', '2'), 'scalar'), (('3/2', '3/2'), 'scalar'), (('1/2', '1/2'), 'scalar'), (('2', '3/2'), 'tuple'), (('5/4', '3/4'), 'list'),
+          (('3/4', '2'), 'tuple')]
+    for (m, n) in itertools.product(range(8, ctx.scale(20, 40)), repeat=2):
+        zoom, form = zs[(m + 2 * n) % len(zs)]
+        case = {'shape': [m, n], 'zoom': list(zoom), 'form': form}
+        if _run_pred(ctx, 'fourier_resample', case, nontrivial=True, tag=f'{form}/par{m % 2}{n % 2}'):
+            g = _p_resample(case, want_out=True)
+            zr = [rat(Fraction(v)) for v in zoom]
+            want = [int(M[f'resample {m} {zr[0]}']), int(M[f'resample {n} {zr[1]}'])]
+            if list(g.shape) != want:
+                ctx.disagree('fourier_resample', case, list(g.shape), want)
 
 
 def _np_pad_ok(shp, out_shape, mode):
@@ -1022,13 +1436,37 @@ def search(ctx, hints):
     for (m, n) in itertools.product(range(1, 10), repeat=2):
         cases = [('richdata_xy', {'shape': [m, n], 'dx': 1.0, 'first': 'x'}), ('richdata_xy', {'shape': [m, n], 'dx': 1.0, 'first': 'y'}),
                  ('slices', {'shape': [m, n], 'dx': 1.0, 'twosided': True}), ('slices', {'shape': [m, n], 'dx': 1.0, 'twosided': False}),
-                 ('focus_origin', {'shape': [m, n]}),
+                 ('focus_origin', {'shape': [m, n]}), ('focus_origin', {'shape': [m, n], 'Q': '2'}), ('focus_origin', {'shape': [m, n], 'Q': '3/2'}),
                  ('centroid', {'shape': [m, n], 'pos': [m // 2, n // 2], 'dx': 1.0}),
                  ('centroid', {'shape': [m, n], 'pos': [m - 1, 0], 'dx': 0.5}),
                  ('centroid', {'shape': [m, n], 'pos': [m - 1, 0], 'unit': 'pixels'}),
                  ('wavefront_pad', {'in': [m, n], 'Q': 2}), ('wavefront_pad', {'in': [m, n], 'Q': 1, 'out': [m + 1, n + 2], 'inplace': False}),
                  ('wavefront_crop', {'in': [m, n], 'out': [max(1, m - 1), max(1, n - 2)]}),
                  ('foreign_origin', {'what': 'psd', 'shape': [m, n]}), ('foreign_origin', {'what': 'synth', 'shape': [m, n]})]
+        for item, case in cases:
+            d = _try(item, case)
+            if d:
+                return hit(item, case, d)
+    for n in range(1, 7):
+        cases = [('pad_nd', {'in': [n], 'out': N}) for N in range(n, 8)] + [('pad_nd', {'in': [n], 'Q': '3/2'})] + \
+                [('pad_nd', {'in': [n, 2, 3], 'out': n + 3}), ('pad_nd', {'in': [2, n, 3], 'out': [3, n + 1, 6], 'outform': 'tuple'})] + \
+                [('compose', {'op': 'pad', 'in': [n, 2], 'mid': [n + a_, 3], 'out': [n + a_ + b_, 5], 'mode': 'constant', 'value': '0'})
+                 for a_ in (1, 2) for b_ in (1, 2)] + \
+                [('compose', {'op': 'crop', 'in': [n + a_ + b_, 5], 'mid': [n + a_, 3], 'out': [n, 2]}) for a_ in (1, 2) for b_ in (1, 2)] + \
+                [('centroid_pad', {'in': [n + 2, 4], 'out': [n + 2 + a_, 4 + b_], 'dx': 0.5, 'seed': 1}) for a_ in (0, 1) for b_ in (1, 2)]
+        for item, case in cases:
+            d = _try(item, case)
+            if d:
+                return hit(item, case, d)
+    for (m, n) in ((7, 8), (8, 7), (9, 9)):
+        cases = [('autocrop', {'shape': [m, n], 'pos': [m // 2, n // 2], 'px': px}) for px in range(1, 6)] + \
+                [('autocrop', {'shape': [m, n], 'pos': [3, 4], 'px': 3}), ('autocrop', {'shape': [m, n], 'pos': [4, 3], 'px': 4})] + \
+                [('slices_az', {'shape': [m, n], 'dx': 0.5})] + \
+                [('richdata_derived', {'shape': [m, n], 'dx': 0.5, 'what': w, 'history': h, 'at': [1, -1]})
+                 for w in ('r', 'support', 'exact') for h in ('fresh', 'copy_after_read')] + \
+                [('fourier_resample', {'shape': [m + 4, n + 4], 'zoom': list(z), 'form': f})
+                 for z, f in ((('2', '2'), 'scalar'), (('3/2', '3/2'), 'scalar'), (('2', '3/2'), 'tuple'), (('3/4', '5/4'), 'list'))] + \
+                [('estimate_size', {'shape': [m + 12, n + 12], 'dx': 0.5, 'metric': k}) for k in ('fwhm', '1/e', '1/e^2')]
         for item, case in cases:
             d = _try(item, case)
             if d:
@@ -1083,18 +1521,45 @@ MANIFEST_ENTRY = {
              'centre of mass (first moment / total, as 2-D sums) of a point source at (p, q) is (p, q), so it reads '
              '((p - m//2) dx, (q - n//2) dx); '
              '(7) Wavefront.pad2d / crop bind every argument of fttools.pad2d / crop_center to its namesake and store / return the '
-             'result (three-valued AST fact: unrecognised spelling degrades the tie, a wrong binding fails). '
+             'result (three-valued AST fact: unrecognised spelling degrades the tie, a wrong binding fails); '
+             '(8) compositions: pad n->N->P places the data where pad n->P does and crop n->N->P keeps what crop n->P keeps; the 2-D '
+             'constant-mode pad is a bijective copy of the input onto the written block and maps nothing outside it '
+             '(pad2d(crop_center(x)) = x on the block); ifftshift and fftshift invert each other as index maps for every n; the '
+             'frequency-axis numerators are the samples of fftrange(n); '
+             '(9) zero padding does not move the spatial centroid of ANY data with non-zero total (finite-sum algebra over the 2-D '
+             'sums, every parity combination): centroid(pad2d(d), dx) = centroid(d, dx); '
+             '(10) psf.autocrop: the translated window is px wide on both axes, the (integer) centroid sample lands on its origin '
+             'sample px//2, axis 0 follows the row centroid; it is the crop_center window when the centroid is the origin sample; '
+             '(11) psf.estimate_size (fwhm, 1/e, 1/e^2) with dx only measures on the vectors of make_xy_grid(shape, dx, grid=False) '
+             '(x from the column count, y from the row count); RichData.support_x / support_y are columns dx / rows dx = extent '
+             'of the coordinate vector plus one sample; '
+             '(12) fttools.fourier_resample (live statements): the shift pair around its FFT brings sample n//2 to FFT index 0 and '
+             'the zero-frequency bin back to n//2, and axis k of the output has int(shape[k] zoom[k]) samples; '
+             '(13) three-valued AST facts: RichData.r / .t are the first / second result of cart_to_polar(x=self.x, y=self.y); the '
+             'polar cache of Slices is uniform_cart_to_polar(x=self._x, y=self._y, data=self._source); exact_x / exact_y '
+             'interpolate the (coordinates, values) pair of the x / y slice; exact_xy builds and queries its interpolator in '
+             '(y, x) = (row, column) order; for user-assigned coordinates (k - c0) dx the slice centre is c0. '
              'COMPARED ONLY (bounded enumeration on the real functions, integer-exact where integers are involved): NumPy plumbing '
              '(slicing, 12 np.pad modes and fill values, meshgrid, roll, argmin and center_of_mass in floating point) for all (n, N) '
              'up to 40 (quick) / 128 (thorough); integer / list / tuple out_shape, Q = 1 with out_shape, int64 / float32 / '
              'complex128 data, transposed and strided inputs up to 10 / 20; grids, frequency axes up to 130 / 600; RichData.x / .y '
              '/ slices and centroids (spatial and pixels) up to 9x9 / 14x14; Wavefront return objects (identity, dx, wavelength, '
-             'space); the FFT itself on the focus / unfocus route up to 11x11 / 23x23; requests that shrink an axis through pad2d raise ValueError '
+             'space); the FFT itself on the focus / unfocus route up to 11x11 / 23x23, with Q = 1 and with the Q-pad (2, 3/2, 5/4); requests that shrink an axis through pad2d raise ValueError '
              '(all shapes up to 5 / 7); re-requested grids after in-place edits of earlier results; array centres written as '
              'ceil(n/2) in segmented.py / x/shack_hartmann.py and the shift pairs of interferogram.psd / '
-             'synthesize_surface_from_psd still centre on n//2 for odd sizes (7 shapes / up to 9x9). '
-             'NOT COVERED: dx = 0 (degenerate all-zero grid: Slices then takes index 0); Slices.azavg / exact_x / exact_y; '
-             'psf.autocrop; non-NumPy backends; config.precision = float32 is tolerated by the comparisons but not swept.'),
+             'synthesize_surface_from_psd still centre on n//2 for odd sizes (7 shapes / up to 9x9); the model\'s 1-D index maps '
+             '(padSrc / cropSrc), roll / shift constants, Slices centre and cuts (argmin over exact rationals), grid=False vectors '
+             'and diameter spacing executed by the driver against the real functions (pairs up to 24 / 48, lengths up to 130, '
+             'shapes up to 9x9 / 14x14); autocrop windows (every position x width 1..8 that fits, 4 / 6 shapes); estimate_size '
+             'dx-route = vector-route (shapes 16..23 / 33); RichData.r (zero only on the origin sample), support, exact_x / '
+             'exact_y / exact_xy at sample coordinates, also on copy(); fourier_resample keeps a centred Gaussian on the origin '
+             'sample (8..19 / 39 per axis; the matrix DFT it calls belongs to C01/C03); pad2d on 1-D and 3-D arrays, tuple-of-NumPy-'
+             'integer and ndarray out_shape; pad-pad / crop-crop compositions up to 9 / 13; centroid of random extended data and '
+             'symmetric blobs before / after zero padding; Slices.azavg / azmax of z = x + 2 y (exact under linear interpolation). '
+             'NOT COVERED: dx = 0 (degenerate all-zero grid: Slices then takes index 0); the polar resampling behind Slices.az* '
+             'beyond its coordinate binding (compared exactly on linear data); the radius returned by estimate_size (only its coordinates); autocrop windows that leave the array; a '
+             'NumPy integer SCALAR out_shape (pad2d / crop_center raise TypeError: a refusal, not a misplacement); non-NumPy '
+             'backends; config.precision = float32 is tolerated by the comparisons but not swept.'),
     'note': ('Trusted: Lean kernel + propext/Classical.choice/Quot.sound; the ast->Lean translator (tools/gen_c04.py: its reading '
              'of comprehensions, tuple unpacking, np.meshgrid(xy) and subscript forms is validated by executing model vs code on '
              'the exhaustive small domain each run); NumPy slicing / np.pad / np.roll / np.argmin and scipy.ndimage.center_of_mass '
